@@ -20,6 +20,7 @@ Row(op, ra, rb) ==
      sa |-> SetToSeq(ef.sa), ka |-> ef.ka, sb |-> SetToSeq(ef.sb), kb |-> ef.kb,
      sub_ba |-> RSubset(rb, ra), sub_ab |-> RSubset(ra, rb), eq |-> (ra = rb),
      jin_closed |-> BdryIn(rb, ra, TRUE), jin_open |-> BdryIn(rb, ra, FALSE),
+     xing |-> IF op = "or" /\ ClassOf(ra, rb) = "T" THEN SetToSeq(Xings(ra, rb)) ELSE <<>>,
      reaches |-> (ef.sa # {} \/ ef.sb # {} \/ (ra \notin {0, Full} /\ rb \notin {0, Full} /\ Reaches(ra, rb)))]
 
 PairRows == [kk \in 1..Len(OpSeq) |->
